@@ -306,7 +306,7 @@ func propC08(c *Ctx) {
 		o2 := c.Ob("C08.R1", "mint leg: safeDepositToken receives (decoded req.To, NewCoins(req.Amount)) and mints exactly its coins parameter")
 		for _, p := range c.Paths(ftd, ftdPO) {
 			o2.Paths++
-			for _, i := range p.Find(func(ev *Event) bool { return ev.Kind == EvCall && isCall(ev, "MsgServer).safeDepositToken") }) {
+			for _, i := range p.Find(func(ev *Event) bool { return ev.Kind == EvCall && isCall(ev, ").safeDepositToken") }) {
 				o2.Sites++
 				a := callRoles(&p.Events[i], depRoles)
 				if a["toAddr"] == nil || a["coins"] == nil {
